@@ -110,6 +110,44 @@ fn p_owned_items() {
     kani::cover!(take > n, "past the end");
     kani::cover!(take < n, "stopped early");
 }
+#[kani::proof]
+#[kani::unwind(6)]
+fn p_owned_skipping_consumers() {
+    // the standard consumers that SKIP items (nth / skip / last / count) on a CIterator over
+    // heap-owning items: the selected item is the twin's, every skipped item is destroyed exactly
+    // once, the rest stays in the source
+    let n: usize = kani::any();
+    kani::assume(n <= 3);
+    let mut v: Vec<D> = Vec::new();
+    let mut i = 0;
+    while i < n { v.push(D::new(i as u32 + 5)); i += 1; }
+    let mut src = v.into_iter();
+    let k: usize = kani::any();
+    kani::assume(k <= 3);
+    let how: u8 = kani::any();
+    kani::assume(how < 4);
+    let consumed;
+    {
+        let mut c = CIterator::new(&mut src);
+        let r = match how { 0 => c.nth(k), 1 => c.skip(k).next(), 2 => c.last(), _ => { let cnt = c.count(); assert!(cnt == n, "C15 count() counts exactly the source's items"); None } };
+        let expect_idx = match how { 0 | 1 => if k < n { Some(k) } else { None }, 2 => if n > 0 { Some(n - 1) } else { None }, _ => None };
+        match (&r, expect_idx) {
+            (Some(d), Some(ix)) => assert!(d.v == ix as u32 + 5 && d.ok(), "C15 the item selected through a skipping consumer is the twin's, intact"),
+            (None, None) => {}
+            _ => assert!(false, "C15 a skipping consumer yields an item exactly when the twin does"),
+        }
+        consumed = match how { 0 | 1 => if k < n { k + 1 } else { n }, _ => n };
+        let held = r.is_some() as usize;
+        assert!(drops() as usize == consumed - held, "C15 every skipped item is destroyed exactly once (none leaked, none twice)");
+        drop(r);
+    }
+    assert!(drops() as usize == consumed, "C15 the selected item is owned by the caller exactly once");
+    drop(src);
+    assert!(drops() as usize == n && unsafe { MADE } as usize == n, "C15 remaining items are dropped by the source exactly once; nothing was fabricated");
+    kani::cover!(how == 0 && k == 1 && n == 3, "nth(1) of 3");
+    kani::cover!(how == 1 && k == 2 && n == 3, "skip(2) of 3");
+    kani::cover!(how == 2 && n == 2, "last of 2");
+}
 struct Pz;
 impl Drop for Pz { fn drop(&mut self) { unsafe { DROPS += 1 } } }
 #[repr(align(64))]
